@@ -326,6 +326,9 @@ def main(argv):
     ap.add_argument("--family", help="debug: only this family")
     a = ap.parse_args(argv)
     prop, tier = a.prop, a.tier
+    global EVDIR
+    if a.no_proof or a.family:
+        EVDIR = os.path.join(VERIF, "work", "alt-evidence")   # debug runs never touch the committed evidence
     seed = int(os.environ.get("VERIF_SEED", "20260928"))
     t0 = time.time()
     mod = load_module(prop)
